@@ -11,6 +11,15 @@ use tera::{Context, Tera};
 fn gen_key_value(rng: &mut Rng, mix: usize) -> V {
     match rng.below(mix) {
         0 => V::I64(rng.range(-2, 4)),
+        // the same numbers in every width, among them the band 2^63..2^64 that only three of the four widths hold
+        1 if rng.chance(1, 3) => {
+            let x = *rng.pick(&[1u128 << 63, (1u128 << 63) + 1, u64::MAX as u128, i64::MAX as u128, 3]);
+            match rng.below(3) {
+                0 => V::U64(x as u64),
+                1 => V::I128(x as i128),
+                _ => V::U128(x),
+            }
+        }
         1 => V::U64(rng.below(4) as u64),
         2 => V::F64(rng.below(4) as f64 + if rng.bool() { 0.5 } else { 0.0 }),
         3 => V::I128(rng.range(-2, 4) as i128),
